@@ -754,13 +754,33 @@ coap_ws_read(coap_session_t *session, uint8_t *data, size_t datalen) {
     }
   }
 
+  /*
+   * The caller's buffer does not survive between calls - bring back the
+   * start of the frame's data that was read in by a previous call.
+   */
+  if (session->ws->partial_data) {
+    memcpy(data, session->ws->partial_data, session->ws->data_ofs);
+    coap_free_type(COAP_STRING, session->ws->partial_data);
+    session->ws->partial_data = NULL;
+  }
+
   /* Get in (remaining) data */
   ret = session->sock.lfunc[COAP_LAYER_WS].l_read(session,
                                                   &data[session->ws->data_ofs],
                                                   session->ws->data_size - session->ws->data_ofs);
+  if (ret > 0)
+    session->ws->data_ofs += ret;
+  if (ret >= 0 && session->ws->data_ofs &&
+      session->ws->data_ofs < session->ws->data_size) {
+    /* Keep what has been read of this frame until the rest arrives */
+    session->ws->partial_data = coap_malloc_type(COAP_STRING,
+                                                 session->ws->data_ofs);
+    if (!session->ws->partial_data)
+      return -1;
+    memcpy(session->ws->partial_data, data, session->ws->data_ofs);
+  }
   if (ret <= 0)
     return ret;
-  session->ws->data_ofs += ret;
   if (session->ws->data_ofs == session->ws->data_size) {
     if (session->ws->state == COAP_SESSION_TYPE_SERVER) {
       /* Need to unmask the data */
